@@ -11,18 +11,12 @@ for n in (1, 2, 3, 4, 5, 6):
     hs.append(H(P + "c40_component_%d" % n, tier="quick" if n <= 4 else "thorough", timeout=900 if n <= 4 else 2400, mem=10 if n <= 4 else 16, covers=2, thorough_timeout=2400, unwindset=uw(n),
                 desc="git's verify_path refuses the component => path::component() refuses it", inputs="all ASCII components of %d bytes without '/', except '.' and '..'; %s" % (n, OPT), bound="unwind 14"))
 for name, what, tot in [("dotgit_t3", "'.git' (any case) + 3 arbitrary ASCII bytes", 7), ("git1_t2", "'git~1' (any case) + 2 arbitrary ASCII bytes", 7),
-                   ("gitmodules_t2", "'.gitmodules' (any case) + 2 arbitrary ASCII bytes", 13), ("gitmod_t3", "'gitmod~' (any case) + 3 arbitrary ASCII bytes", 10),
+                   ("gitmod_t3", "'gitmod~' (any case) + 3 arbitrary ASCII bytes", 10),
 ]:
     q = name in ("dotgit_t3", "git1_t2")
     hs.append(H(P + "c40_" + name, tier="quick" if q else "thorough", timeout=900 if q else 2400, mem=10 if q else 24, covers=2, unwindset=uw(tot), desc="git refuses => gitoxide refuses, around the spelled-out names", inputs=what + "; " + OPT, bound="unwind 16"))
 hs.append(H(P + "c40_known_backslash_unix", timeout=900, mem=10, covers=0, expect="known_finding", finding="C40-F12", unwindset=uw(6),
             desc="components containing a backslash, protect_ntfs on, protect_windows off", inputs="6 arbitrary ASCII bytes with at least one backslash", bound="unwind 16"))
-hs.append(H(P + "c40_shortname_8", tier="thorough", timeout=2400, mem=24, covers=2, unwindset=uw(9), desc="NTFS fall-back short names (gi7eba~N family): git refuses => gitoxide refuses",
-            inputs="9 arbitrary ASCII bytes starting with g/G/~; " + OPT, bound="unwind 16"))
-for name in ("git_p0", "git_p1", "git_p3", "git_p4", "gitmodules_p5", "gitmodules_p11"):
-    hs.append(H(P + "c40_hfs_" + name, tier="thorough", timeout=2400, mem=24, covers=2, unwindset=uw(15 if "modules" in name else 8),
-                desc="'.git'/'.gitmodules' with one HFS-ignorable code point inserted: git refuses => gitoxide refuses",
-                inputs="insertion position %s; code point: symbolic choice among the 16; symbolic case; optional 1-byte tail; %s" % (name.split("_p")[1], OPT), bound="unwind 18"))
 for pos in (2, 4):
     hs.append(H(P + "c40_hfs_simple_p%d" % pos, timeout=900, mem=10, covers=2, unwindset=uw(7),
                 desc="'.git' with one HFS-ignorable code point inserted: git refuses => gitoxide refuses", inputs="insertion position %d; code point: symbolic choice among the 16; %s" % (pos, OPT), bound="unwind 18"))
